@@ -145,6 +145,19 @@ def lump(M0, P, deleted, zero, add):
     return M
 
 
+EXACT_PATTERNS = ("chain_no_diagonal", "chain_with_diagonal", "star0_no_diagonal", "only_last_pair", "complete_with_diagonal")
+
+
+def exact_pattern(n, name):
+    """stored positions (i, j) of the original n x n matrix"""
+    off = {"chain": [(i, i + 1) for i in range(n - 1)], "star0": [(0, j) for j in range(1, n)], "only": [(n - 2, n - 1)] if n >= 2 else [],
+           "complete": [(i, j) for i in range(n) for j in range(i + 1, n)]}[name.split("_")[0]]
+    pos = set(off) | {(j, i) for i, j in off}
+    if name.endswith("with_diagonal"):
+        pos |= {(i, i) for i in range(n)}
+    return pos
+
+
 def shapes(tier, seed):
     out = []
     for n in (1, 2, 3, 4):
@@ -166,6 +179,14 @@ def shapes(tier, seed):
                 ops.append(["merge", [present[: k // 2], present[k // 2: k]]])
             for sparse in (False, True):
                 out.append({"kind": "step", "n": n, "P": P, "deleted": deleted, "sparse": sparse, "ops": ops})
+    # sparse inputs with a CONCRETE sparsity pattern on the exact-order csr model (.data/.indices/.indptr as scipy lays them out):
+    # code that reads the CSR buffers is executed on rows without any stored entry, without a stored diagonal, ...
+    for n in (2, 3, 4):
+        for P, deleted in all_states(n):
+            if n == 4 and not (len(P) in (3, 4) and sum(len(g) for g in P) == 4):
+                continue
+            for pname in EXACT_PATTERNS:
+                out.append({"kind": "step", "n": n, "P": P, "deleted": deleted, "sparse": True, "exact": pname})
     pats = {3: [[(0, 1), (1, 2), (0, 2)], [(0, 1), (1, 2)]]}
     if tier == "thorough":
         pats[4] = [[(0, 1), (1, 2), (2, 3)], [(0, 1), (0, 2), (0, 3)], [(0, 1), (1, 2), (2, 3), (0, 3)], [(0, 1), (0, 2), (0, 3), (1, 2), (1, 3), (2, 3)]]
@@ -199,6 +220,11 @@ def run_shape(shape):
     prover = Prover(timeout_ms=10000, budget_s=600)
     acc = Acc(shape)
     M0 = _m0(n)
+    exact = shape.get("exact")
+    if exact:
+        pos0 = exact_pattern(n, exact)
+        M0 = [[M0[i][j] if (i, j) in pos0 else z3.RealVal(0) for j in range(n)] for i in range(n)]      # structurally absent = 0
+        stored = {(a, b) for a, A_ in enumerate(P) for b, B_ in enumerate(P) if any((i, j) in pos0 for i in A_ for j in B_) or (deleted and a == b)}
     cur = lump(M0, P, deleted, z3.RealVal(0), _zsum)
     proxy = NPProxy()
     eng_stats = {}
@@ -206,24 +232,44 @@ def run_shape(shape):
     if "ops" in shape:
         ops = [(o_, tuple(tuple(x) for x in a) if o_ == "merge" else tuple(a), un) for o_, a in shape["ops"] for un in nones]
     else:
-        ops = [("merge", a, use_none) for a in merge_args(n, tier) for use_none in nones]
+        margs = merge_args(n, tier)
+        if exact:       # the exact-pattern variant is about the buffer layout: every deletion, and the merges that name at most three cells
+            margs = [a for a in margs if sum(len(j) for j in a) <= 3 and len(a) <= 2]
+        ops = [("merge", a, use_none) for a in margs for use_none in nones]
         ops += [("delete", a, use_none) for a in delete_args(n, tier) for use_none in nones]
     nviol = 0
+    layout_seen = False
     for op, arg, use_none in ops:
-        if nviol >= 6:
+        if nviol >= 6 or (layout_seen and not exact):
             break
         eng = Engine()
+        if exact:
+            # rate-matrix-like signs for the exact-pattern variant (stored off-diagonal entries > 0, stored diagonal entries < 0): the csr
+            # model drops numerically zero results like scipy does, and with free signs every stored sum would fork the path
+            for i in range(n):
+                for j in range(n):
+                    if (i, j) in pos0:
+                        eng.declare_sign(M0[i][j], "+" if i != j else "-")
+                        eng.assume_global(M0[i][j] > 0 if i != j else M0[i][j] < 0)
 
         def body():
             k = len(P)
             A = sarr([[SR(x) for x in row] for row in cur]) if k else np.zeros((0, 0), dtype=object).view(SArr)
-            if sparse:
+            if sparse and exact:
+                keys = sorted(stored)
+                A = sp.csr_array((sarr([SR(cur[a][b]) for a, b in keys]) if keys else np.zeros(0, dtype=object).view(SArr),
+                                  ([a for a, b in keys], [b for a, b in keys])), shape=(k, k))
+            elif sparse:
                 A = sp.DCsr(A)
             il = None if use_none else [list(g) for g in P]
-            with bound(RM, csr_array=sp.DCsr, coo_array=sp.DCoo, diags=sp.ddiags, print=noprint, np=proxy):
-                if op == "merge":
-                    return RM.merge_matrix_cells(A, [list(j) for j in arg], index_list=il)
-                return RM.delete_rate_cells(A, list(arg), index_list=il)
+            models = dict(csr_array=sp.csr_array, coo_array=sp.coo_array, diags=sp.diags) if exact else dict(csr_array=sp.DCsr, coo_array=sp.DCoo, diags=sp.ddiags)
+            with bound(RM, print=noprint, np=proxy, **models):
+                try:
+                    if op == "merge":
+                        return RM.merge_matrix_cells(A, [list(j) for j in arg], index_list=il)
+                    return RM.delete_rate_cells(A, list(arg), index_list=il)
+                except sp.LayoutAccess as e:
+                    return "LAYOUT", str(e)
 
         accept = acceptable_merges(P, arg) if op == "merge" else [spec_delete(P, arg)]
         del2 = deleted if op == "merge" else True
@@ -238,6 +284,11 @@ def run_shape(shape):
                 continue
             if acc.reachable is not True:
                 acc.reach(prover.satisfiable(path.premises))
+            if isinstance(path.value, tuple) and len(path.value) == 2 and isinstance(path.value[0], str) and path.value[0] == "LAYOUT":
+                # the code reads the CSR buffers: undecidable on the pattern-abstract model, decided by the exact-pattern shapes
+                acc.extra["layout_dependent_steps_left_to_exact_shapes"] = acc.extra.get("layout_dependent_steps_left_to_exact_shapes", 0) + 1
+                layout_seen = True
+                continue
             R, il2 = path.value
             try:
                 il2c = [[int(x) for x in g] for g in il2]
@@ -257,7 +308,7 @@ def run_shape(shape):
             if not ok_shape:
                 nviol += 1
                 continue
-            acc.structural(f"same_kind:{tag}", isinstance(R, sp.DenseBacked) == sparse, detail=type(R).__name__, cex=cexinfo)
+            acc.structural(f"same_kind:{tag}", (isinstance(R, sp.DenseBacked) or getattr(R, "format", None) in ("csr", "csc", "coo")) == sparse, detail=type(R).__name__, cex=cexinfo)
             claims = [(f"entry[{a},{b}]:{tag}", z(Rd[a, b]) == expect[a][b]) for a in range(kk) for b in range(kk)]
             # consequences stated by the property: zero row sums and symmetry are preserved
             zero_rows = [_zsum(list(M0[i])) == 0 for i in range(n)]
@@ -302,7 +353,10 @@ def run_cut(shape):
         H = sp.coo_array(([1.0] * len(keys), ([k[0] for k in keys], [k[1] for k in keys])), shape=(n, n))
         with bound(RM, csr_array=sp.DCsr, coo_array=sp.DCoo, diags=sp.ddiags, print=noprint, np=proxy), bound(T, print=noprint):
             s = T.SQRA(energies=sarr([SR(e) for e in E]), volumes=sarr([1.0] * n), distances=H, surfaces=H)
-            return s.cut_and_merge(Q, SR(Tt), SR(lo) if shape["lower"] else None, SR(up) if shape["upper"] else None)
+            try:
+                return s.cut_and_merge(Q, SR(Tt), SR(lo) if shape["lower"] else None, SR(up) if shape["upper"] else None)
+            except sp.LayoutAccess as e:
+                return "LAYOUT", str(e)
 
     def decided(path, cond):
         """value of a condition the code must have branched on along this path (None if the path leaves it open)"""
@@ -321,6 +375,9 @@ def run_cut(shape):
             continue
         if acc.reachable is not True:
             acc.reach(prover.satisfiable(path.premises))
+        if isinstance(path.value, tuple) and len(path.value) == 2 and isinstance(path.value[0], str) and path.value[0] == "LAYOUT":
+            acc.extra["layout_dependent_steps_left_to_exact_shapes"] = acc.extra.get("layout_dependent_steps_left_to_exact_shapes", 0) + 1
+            continue
         R, il = path.value
         # specification from the statement, evaluated under this path's decisions
         P2 = [[i] for i in range(n)]
@@ -447,12 +504,25 @@ def replay(cex):
     P, deleted, sparse = shape["P"], shape["deleted"], shape["sparse"]
     op, arg, use_none = cex["op"], cex["arg"], cex.get("use_none", False)
     k = len(P)
+    exact = shape.get("exact")
+    if exact:
+        pos0 = exact_pattern(n, exact)
+        for i in range(n):
+            for j in range(n):
+                if (i, j) not in pos0:
+                    M0[i][j] = 0.0
+                elif (M0[i][j] <= 0) if i != j else (M0[i][j] >= 0):      # the variant's sign assumptions (model gaps filled with defaults)
+                    M0[i][j] = (1.0 + 0.1 * i + 0.01 * j) * (1 if i != j else -1)
     cur = np.array(lump(M0, P, deleted, 0.0, _fsum), dtype=float).reshape(k, k)
-    A = rsp.csr_array(cur) if sparse else cur
+    if exact:
+        stored = sorted({(a, b) for a, A_ in enumerate(P) for b, B_ in enumerate(P) if any((i, j) in pos0 for i in A_ for j in B_) or (deleted and a == b)})
+        A = rsp.csr_array((np.array([cur[a][b] for a, b in stored], dtype=float), ([a for a, b in stored], [b for a, b in stored])), shape=(k, k))
+    else:
+        A = rsp.csr_array(cur) if sparse else cur
     il = None if use_none else [list(g) for g in P]
     accept = acceptable_merges(P, [tuple(a) for a in arg]) if op == "merge" else [spec_delete(P, arg)]
     del2 = deleted if op == "merge" else True
-    call = f"{'merge_matrix_cells' if op == 'merge' else 'delete_rate_cells'}(<{k}x{k} {'csr' if sparse else 'dense'}>, {arg}, index_list={il})"
+    call = f"{'merge_matrix_cells' if op == 'merge' else 'delete_rate_cells'}(<{k}x{k} {'csr' if sparse else 'dense'}{' with stored entries ' + str(stored) if exact else ''}>, {arg}, index_list={il})"
     try:
         with contextlib.redirect_stdout(out):
             if op == "merge":
